@@ -2,6 +2,7 @@ pub mod conc;
 pub mod flw;
 pub mod fmt;
 pub mod names;
+pub mod realclock;
 pub mod flwgen;
 pub mod robust;
 pub mod spec;
@@ -56,6 +57,7 @@ pub fn execute(ctx: &mut Ctx, lines: &[String]) -> Vec<(Vec<String>, Vec<String>
     ctx.report.evaluations += 1;
     match hdr[1] {
         "spec" => vec![(lines.to_vec(), spec::execute(ctx, lines))],
+        "flw" if lines.iter().take(6).any(|l| l.starts_with("NOTE realclock ")) => vec![(lines.to_vec(), realclock::execute(ctx, lines))],
         "flw" | "robust" => {
             let ans = flw::execute(ctx, lines);
             // `BGTRACE` is rewritten into what was observed of the cleanup thread (`BGOBS …`)
